@@ -13,9 +13,15 @@ class Query:
         self.name = name; self.module = module; self.func = func; self.params = params
         self.bound = bound; self.max_paths = max_paths; self.budget_s = budget_s
 
+def strip_all(j):
+    if isinstance(j, list):
+        if j and j[0] in ('Err', 'LexErr') and len(j) == 2 and isinstance(j[1], str): return ['Err']
+        return [strip_all(x) for x in j]
+    return j
+
 def norm_native(reply):
     st, payload = reply
-    if st == 'ok': return ['ok', strip_err(payload)]
+    if st == 'ok': return ['ok', strip_all(payload)]
     return [st, None]
 
 class Runner:
